@@ -40,7 +40,7 @@ ASSUMPTIONS = [
 RULE = "entity_query_language.rule"
 
 
-def _shapes(prog: Program):
+def _shapes(prog: Program, levels: int = 2):
     qod = prog.cls("symbolic.Entity").qual
     sel = [prog.cls("conclusion_selector.ExceptIf").qual, prog.cls("conclusion_selector.Alternative").qual, prog.cls("conclusion_selector.Next").qual]
     slots = ("left", "right")
@@ -49,6 +49,9 @@ def _shapes(prog: Program):
         out.append([(k, s), (qod, "_child_")])
     for (k1, s1), (k2, s2) in itertools.product(itertools.product(sel, slots), repeat=2):
         out.append([(k1, s1), (k2, s2), (qod, "_child_")])
+    if levels >= 3:
+        for combo in itertools.product(itertools.product(sel, slots), repeat=3):
+            out.append([*combo, (qod, "_child_")])
     return out
 
 
@@ -81,7 +84,7 @@ def _snapshot(heap: Heap):
     return {(o.name, f): v for o in heap.objs for f, v in o.f.items()}
 
 
-def rule_surgery(prog: Program) -> RuleResult:
+def rule_surgery(prog: Program, levels: int = 2) -> RuleResult:
     r = RuleResult("RULE-SURGERY", "both tree representations agree after every surgery, for every initial shape", floor=10)
     mod = prog.module(RULE)
     binop = prog.cls("symbolic.BinaryOperator").qual
@@ -92,7 +95,7 @@ def rule_surgery(prog: Program) -> RuleResult:
     routines = [("refinement", mod.funcs.get("refinement"), [], exq, False),
                 ("alternative", mod.funcs.get("alternative"), [], altq, True),
                 ("next_rule", mod.funcs.get("next_rule"), [], nxtq, True)]
-    shapes = _shapes(prog)
+    shapes = _shapes(prog, levels)
     for rname, fn, extra, want_kind, climbs in routines:
         if fn is None:
             raise AnalysisError(f"RULE-SURGERY: {rname} vanished from rule.py")
@@ -271,4 +274,5 @@ def _emission_protocol(r: RuleResult, f: FuncInfo, label: str):
 
 
 def run(prog: Program, tier: str) -> List[RuleResult]:
-    return [rule_surgery(prog), rule_select(prog)]
+    # thorough: three selector levels (259 initial shapes per routine) instead of two (43)
+    return [rule_surgery(prog, 3 if tier == "thorough" else 2), rule_select(prog)]
